@@ -207,7 +207,7 @@ def obligations(tier, rng):
             out.append(ob('C02', 'online', 'F2/%s/N=%d' % (text(f), N), f=f, N=N, ext=_ext_ok(f) and N <= 5))
     for f in fdup():
         for N in ([4] if quick else [3, 6]):
-            out.append(ob('C02', 'online', 'Fdup/%s/N=%d' % (text(f), N), f=f, N=N, ext=_ext_ok(f)))
+            out.append(ob('C02', 'online', 'Fdup/%s/N=%d' % (text(f), N), f=f, N=N, ext=_ext_ok(f), sweep=20))
     # near-duplicates: two stateful operators over the same operand whose texts differ only in the fractional part of a bound or in a
     # unit (period 500 ms: bounds are durations in s, the formula for the oracle has them in samples)
     near = []
